@@ -309,6 +309,37 @@ def _ends_in_return(stmts):
     return False
 
 
+
+def unwrap_progress_with(stmts):
+    """`with get_progress(...)(...) as prog_bar: BODY`  ->  `prog_bar = get_progress(...)(...);
+    prog_bar.enter(); BODY; prog_bar.exit()` — the bare statement sequence with the same order of
+    operations.  Fragments that read statement ORDER use this so that guarding a progress report
+    with `with` (what C19 demands) is not mistaken for a change of the loop they describe; the
+    guarding style itself is read by the ProgressGuard fragment from the original AST."""
+    out = []
+    for s in stmts:
+        if isinstance(s, ast.With) and len(s.items) == 1:
+            it = s.items[0]
+            ctx = it.context_expr
+            if isinstance(ctx, ast.Call) and isinstance(ctx.func, ast.Call) \
+                    and attr_chain(ctx.func.func) == ["get_progress"] \
+                    and isinstance(it.optional_vars, ast.Name):
+                name = it.optional_vars.id
+                new = [ast.parse("%s = %s" % (name, ast.unparse(ctx))).body[0],
+                       ast.parse("%s.enter()" % name).body[0]]
+                last = ast.parse("%s.exit()" % name).body[0]
+                for n in new + [last]:
+                    for sub in ast.walk(n):
+                        if hasattr(sub, "lineno"):
+                            sub.lineno = s.lineno
+                            sub.end_lineno = s.lineno
+                out.extend(new)
+                out.extend(unwrap_progress_with(s.body))
+                out.append(last)
+                continue
+        out.append(s)
+    return out
+
 LTYPE = {"Int": "Int", "Flt": "Rat", "Bool": "Bool"}
 
 
@@ -323,7 +354,7 @@ class Source:
             self.cache[rel] = ast.parse(open(path).read(), filename=path)
         return self.cache[rel]
 
-    def function(self, rel, qual):
+    def function(self, rel, qual, raw=False):
         """qual = 'func' or 'Class.method'"""
         node = self.tree(rel)
         for part in qual.split("."):
@@ -335,6 +366,11 @@ class Source:
             if found is None:
                 raise Untranslatable("cannot find %s in %s" % (qual, rel))
             node = found
+        if isinstance(node, ast.FunctionDef) and not raw:
+            # statement-order readers see a progress `with` as its bare statement sequence
+            import copy as _copy
+            node = _copy.deepcopy(node)
+            node.body = unwrap_progress_with(node.body)
         return node
 
     def assignment(self, fn, target):
@@ -560,7 +596,7 @@ def _cc_side(binop, is_new, is_acc, where):
 def _cc_strip(stmts):
     """drop docstrings and bare print(...) calls (no effect on the returned value)"""
     out = []
-    for s in stmts:
+    for s in unwrap_progress_with(stmts):
         if isinstance(s, ast.Expr) and isinstance(s.value, ast.Constant):
             continue
         if isinstance(s, ast.Expr) and isinstance(s.value, ast.Call) \
@@ -5514,7 +5550,7 @@ def _mf_norm(n):
 
 def _mf_strip(stmts):
     """drop docstrings"""
-    return [s for s in stmts
+    return [s for s in unwrap_progress_with(stmts)
             if not (isinstance(s, ast.Expr) and isinstance(s.value, ast.Constant)
                     and isinstance(s.value.value, str))]
 
